@@ -16,6 +16,7 @@ package main
 import (
 	"fmt"
 	"go/ast"
+	"go/token"
 	"go/types"
 	"os"
 	"sort"
@@ -135,6 +136,19 @@ func (e *Engine) sweepOne(p *packages.Package, key string) (res *UnitResult) {
 	}
 	res.Obls = keep
 	return res
+}
+
+// rawLine: the text of the source line of pos.
+func (u *Unit) rawLine(pos token.Pos) string {
+	if !pos.IsValid() {
+		return ""
+	}
+	p := u.eng.fset.Position(pos)
+	src := u.eng.sourceLines(strings.TrimPrefix(p.Filename, u.eng.repo+"/"))
+	if p.Line <= 0 || p.Line > len(src) {
+		return ""
+	}
+	return src[p.Line-1]
 }
 
 // lineLabel: a stable label for an obligation at pos: the trimmed text of its source line.
